@@ -2,6 +2,7 @@ package paths
 
 import (
 	"go/ast"
+	"go/token"
 	"go/types"
 )
 
@@ -95,6 +96,10 @@ func (s *subst) expr(e ast.Expr) ast.Expr {
 		}
 	case *ast.StarExpr:
 		if x := s.expr(v.X); x != v.X {
+			// *(&y) is y: a field passed by address to a helper reads as the field itself
+			if u, ok := ast.Unparen(x).(*ast.UnaryExpr); ok && u.Op == token.AND {
+				return u.X
+			}
 			nu = &ast.StarExpr{Star: v.Star, X: x}
 		}
 	case *ast.SelectorExpr:
